@@ -1,5 +1,6 @@
 //! Correspondence harness: drives the real crustabri (built from /repo's working tree) on generated
 //! inputs and prints everything observable to a `.cases` file for comparison with the Coq model.
+mod cli;
 mod common;
 mod encoders;
 mod equiv;
@@ -65,6 +66,7 @@ fn main() {
         "meta" => meta::run_meta(&mut rng, count, thorough, &extra, &mut out),
         "cross" => meta::run_cross(&mut rng, count, thorough, &extra, &mut out),
         "encoders" => encoders::run(&mut rng, count, thorough, &extra, &mut out),
+        "cli" => cli::run(&mut rng, count, thorough, &extra, outp.as_deref(), &mut out),
         "static-multi" => statics::run(&mut rng, count, thorough, &statics::Cfg::from_extra(&extra, 3), &mut out),
         _ => {
             eprintln!("unknown mode {}", mode);
